@@ -128,8 +128,11 @@ class PolicyDirectoryMonitor(multiprocessing.Process):
                         self.policy_cache[p] = []
                     self.policy_store[p] = new_p.get(p)
                     self.policy_map[p] = f
-                for p in set(old_p) - set(new_p.keys()):
+                for p in set(self.policy_cache.keys()) - set(new_p.keys()):
+                    # The file no longer defines this policy; drop any
+                    # shadowed definition it contributed earlier.
                     self.disassociate_policy_and_file(p, f)
+                for p in set(old_p) - set(new_p.keys()):
                     self.restore_or_delete_policy(p)
 
     def run(self):
